@@ -87,6 +87,27 @@ func rioPayload(i int, r rioRec) []byte {
 		if len(b) > 0 {
 			b[0] = 0
 		}
+	case 7: // false record starts: the marker followed by header fields that cannot be decoded or are absurd
+		rr.Read(b)
+		junk := [][]byte{
+			{0x91, 0x8d, 0x4c, 0x00, 0xff, 0xff, 0xff, 0xff, 0xff, 0xff, 0xff, 0xff, 0xff, 0xff, 0xff, 0xff}, // varint beyond 64 bits
+			{0x91, 0x8d, 0x4c, 0x01, 0xff, 0xff, 0xff, 0xff, 0x0f, 0xff, 0xff, 0xff, 0xff, 0x0f},             // sizes of 4 GiB
+			{0x91, 0x8d, 0x4c, 0x00, 0xff, 0xff, 0xff, 0xff, 0xff, 0xff, 0xff, 0xff, 0xff, 0x01, 0x00, 0x00}, // size 2^64-1
+			{0x91, 0x8d, 0x4c, 0x00, 0x03, 0x03, 0x00},                                                       // plausible tiny header, checksum 0
+			{0x91, 0x8d, 0x4c, 0x02, 0x80, 0x80, 0x80},                                                       // nil flag 2, unterminated varint
+		}
+		for at := 0; at < len(b); {
+			j := junk[rr.Intn(len(junk))]
+			at += rr.Intn(8)
+			if at+len(j) > len(b) {
+				break
+			}
+			copy(b[at:], j)
+			at += len(j)
+			if rr.Intn(3) == 0 {
+				break
+			}
+		}
 	}
 	return b
 }
@@ -131,7 +152,7 @@ func rioGen(r *rand.Rand, mode string, thorough bool) rioCase {
 		n = 0
 	}
 	for i := 0; i < n; i++ {
-		rec := rioRec{SeekBack: -1, Pattern: r.Intn(7)}
+		rec := rioRec{SeekBack: -1, Pattern: r.Intn(8)}
 		rec.Size = pick(r, 0, 1, 2, 3, 5, 17, 60, 63, 64, 65, 127, 128, 129, 200, 255, 256, 1000)
 		if mode == "control" && r.Intn(20) == 0 {
 			rec.Size = pick(r, 16383, 16384, 16385, 65535, 65536, 65537) // varint / 16-bit boundaries
